@@ -42,7 +42,7 @@ const REGS: [(u64, u64, u64, u64); 2] = [
 /// table A = REGS; table B = the same guest ranges and files offsets with the two front-end (user) ranges swapped, so
 /// that the same front-end address translates to a different guest address depending on the table in force
 fn regs(t: usize) -> [(u64, u64, u64, u64); 2] {
-    if t == 0 {
+    if t % 2 == 0 {
         REGS
     } else {
         [(REGS[0].0, REGS[0].1, REGS[1].2, REGS[0].3), (REGS[1].0, REGS[1].1, REGS[0].2, REGS[1].3)]
@@ -51,7 +51,8 @@ fn regs(t: usize) -> [(u64, u64, u64, u64); 2] {
 
 #[derive(Serialize, Deserialize, Debug, Clone, Hash, PartialEq, Eq)]
 pub enum Op {
-    MemTable { b: bool },
+    /// b: geometry A / B; alt: the second set of backing files for that geometry (same layout, other memory)
+    MemTable { b: bool, #[serde(default)] alt: bool },
     Num { r: u8, size: u16 },
     Base { r: u8, base: u16 },
     /// addresses: per descriptor/avail/used (region, offset); `outside`: Some(k) puts address k just outside
@@ -106,7 +107,7 @@ fn run_generic<V: VringT<GM> + Clone + Send + Sync + 'static>(ctx: &mut Ctx, h: 
     let fx: Fx<V> = Fx::new_wrapped(cfg, h.wrap)?;
     let mut s = Sess::open(fx, None)?;
     // two interchangeable sets of backing files
-    let files: [[File; 2]; 2] = [[memfd(20 * PAGE), memfd(20 * PAGE)], [memfd(20 * PAGE), memfd(20 * PAGE)]];
+    let files: [[File; 2]; 4] = [[memfd(20 * PAGE), memfd(20 * PAGE)], [memfd(20 * PAGE), memfd(20 * PAGE)], [memfd(20 * PAGE), memfd(20 * PAGE)], [memfd(20 * PAGE), memfd(20 * PAGE)]];
     let mut table: Option<usize> = None; // 0 = A, 1 = B
     let mut table_at_addr: Vec<Option<usize>> = vec![None; NRINGS];
     let mut rings: Vec<Ring> = (0..NRINGS).map(|_| Ring { size: MAXQ, ..Default::default() }).collect();
@@ -124,8 +125,11 @@ fn run_generic<V: VringT<GM> + Clone + Send + Sync + 'static>(ctx: &mut Ctx, h: 
         let desc = format!("op #{i} {op:?}");
         let mut check_ring: Option<usize> = None;
         match op {
-            Op::MemTable { b } => {
-                let t = *b as usize;
+            Op::MemTable { b, alt } => {
+                let t = *b as usize + 2 * (*alt as usize);
+                if table.map(|x| x % 2 == t % 2 && x != t).unwrap_or(false) {
+                    ctx.class("table_resent_same_geometry_other_files");
+                }
                 let body = spec::b_mem_table(&regs(t).iter().map(|r| [r.0, r.1, r.2, r.3]).collect::<Vec<_>>());
                 let fds = [files[t][0].as_raw_fd(), files[t][1].as_raw_fd()];
                 if !s.acked(fe::SET_MEM_TABLE, &body, &fds)? {
@@ -418,7 +422,7 @@ fn run_generic<V: VringT<GM> + Clone + Send + Sync + 'static>(ctx: &mut Ctx, h: 
                 let ring = rings[r].clone();
                 let pos = ring.addrs.and_then(|a| file_pos(a.2));
                 let before: Vec<Vec<u8>> = match pos {
-                    Some((fi, p)) => (0..2).map(|t| { let mut b = vec![0u8; 4 + 8 * MAXQ as usize]; let _ = files[t][fi].read_exact_at(&mut b, p); b }).collect(),
+                    Some((fi, p)) => (0..4).map(|t| { let mut b = vec![0u8; 4 + 8 * MAXQ as usize]; let _ = files[t][fi].read_exact_at(&mut b, p); b }).collect(),
                     None => vec![],
                 };
                 s.fx.be.st.lock().unwrap().barrier_hook = Some(hook);
@@ -450,8 +454,8 @@ fn run_generic<V: VringT<GM> + Clone + Send + Sync + 'static>(ctx: &mut Ctx, h: 
                 // used ring bytes
                 match (ring.addrs, table, pos, ring.next_used) {
                     (Some(_), Some(t), Some((fi, p)), Some(nu)) => {
-                        let mut after = vec![vec![0u8; 4 + 8 * MAXQ as usize]; 2];
-                        for tt in 0..2 {
+                        let mut after = vec![vec![0u8; 4 + 8 * MAXQ as usize]; 4];
+                        for tt in 0..4 {
                             let _ = files[tt][fi].read_exact_at(&mut after[tt], p);
                         }
                         if idx >= ring.size {
@@ -475,8 +479,8 @@ fn run_generic<V: VringT<GM> + Clone + Send + Sync + 'static>(ctx: &mut Ctx, h: 
                                     nu.wrapping_add(1)
                                 ));
                             }
-                            if after[1 - t] != before[1 - t] {
-                                return Err(format!("{desc}: add_used wrote to the memory of the previous table"));
+                            if let Some(o) = (0..4).find(|o| *o != t && after[*o] != before[*o]) {
+                                return Err(format!("{desc}: add_used wrote to the memory of another (earlier) table (file set {o}, the table in force uses set {t})"));
                             }
                             if table_at_addr[r] != Some(t) {
                                 nt = true;
@@ -628,7 +632,7 @@ fn op_strategy() -> impl Strategy<Value = Op> {
         1 => any::<u64>().prop_map(|v| v & !OFFERED),
     ];
     prop_oneof![
-        3 => any::<bool>().prop_map(|b| Op::MemTable { b }),
+        3 => (any::<bool>(), any::<bool>()).prop_map(|(b, alt)| Op::MemTable { b, alt }),
         3 => (ring_strategy(), size).prop_map(|(r, size)| Op::Num { r, size }),
         3 => (ring_strategy(), crate::engine::lat16()).prop_map(|(r, base)| Op::Base { r, base }),
         5 => (ring_strategy(), any::<[bool; 3]>(), any::<[u16; 3]>(), prop_oneof![5 => Just(None), 1 => (0u8..3).prop_map(Some)], crate::engine::lat16())
